@@ -76,6 +76,22 @@ CHECKS = {
             "The python wrapper runs without sanitizers (crashes/hangs are still caught by the worker watchdog). hp01, plotting, fits and "
             "file IO are outside this check. ASan leak checking is off (known one-buffer leak per shape change).",
             "3 C20"),
+    "C09": ("exploration", "bex", "bounded exhaustive enumeration of limits/boxes/winds on distinct-valued spectra vs a bin-membership reference",
+            "Spectra with a distinct value in every bin on 5 grids; PTM4 over the full wind x direction x depth x agefac menu incl. exact-"
+            "equality boundary cases; bbox over every single box with each limit omitted/on a node/between nodes, every pair and triple "
+            "from box alphabets classified by an independent reference (disjoint / overlap / touch); split and limited stats over every "
+            "limit combination from {None, nodes, midpoints}; ptm5 over every cutoff on/between nodes. Membership, disjointness, exact "
+            "sum, rejection of overlaps, interpolated cutoff slices and the single ptm5 factor are checked bin by bin.",
+            "celerity() is taken from the library (C01). Cases within 1e-9 of a float boundary are don't-care unless equality is exact.",
+            "3 C09"),
+    "C18": ("model_checking", "hist", "exhaustive operation-history exploration (all sequences to depth 3/4) on live objects vs fresh-interpreter references",
+            "Every sequence up to depth 3 (4 thorough) over a 14-operation alphabet (accessor calls, in-place edits of efth/dir/freq, "
+            "watershed calls on other shapes and objects, a reader call) is executed on freshly built objects in a freshly forked child; a "
+            "28-observation battery (Dataset accessor, efth accessor, DataArray accessor, values and attrs) is compared with the battery "
+            "computed in a fresh interpreter on a fresh object of the same contents (16 content states).",
+            "Quick skips depth-3 histories without any edit. Hidden state reachable only through operations outside the alphabet is not "
+            "explored.",
+            "3 C18"),
 }
 
 PENDING = {
